@@ -169,6 +169,128 @@ theorem added_constraint_partial (st st' : State) (c : Const) (hk : c.kind = .un
     simp only [List.mem_filter, State.keptConsts, List.mem_append, List.mem_map]
     exact ⟨⟨.inl ⟨(n, c), mem_aset_self n c st.named, rfl⟩, hkeys⟩, by simp [hk]⟩
 
+/-! ## untouched constraints: the central "everything it was not told to change" clause -/
+
+/-- what it means for a table constraint of the original table to be carried into the new table: it is in the
+schema of `CREATE TABLE _alembic_tmp_<t>`, in the list of its kind, with the same name, text, referent — over the
+final names of its columns (`mapCols` only rewrites `cols` through `finalName`) -/
+def CarriedOver (st : State) (c : Const) : Prop :=
+  c ∈ st.keptConsts ∧
+  (c.kind = .unique → st.mapCols c ∈ st.newSchema.uniques) ∧
+  (c.kind = .check → st.mapCols c ∈ st.newSchema.checks) ∧
+  (c.kind = .fk → st.mapCols c ∈ st.newSchema.fks)
+
+/-- **C10.schema (untouched named constraints).**  For every table, both `reflected` settings and every accepted
+operation sequence: a *named* UNIQUE / CHECK / FOREIGN KEY constraint of the original table
+* whose name is unique among the table's constraints,
+* all of whose columns are columns of the table that no operation drops or re-adds (`touches`), and
+* that no operation names (`drop_constraint(n)`, `add_constraint` of a constraint called `n`)
+is carried into the new table with the same definition, over the final names of its columns.
+The two things the code drops *by design* are exactly the negations of the hypotheses: an unnamed constraint is
+not covered (`c.name = some n`; unnamed reflected CHECKs are skipped in `_grab_table_elements`), and a constraint
+one of whose columns is dropped is omitted (`const_columns ⊄ column_transfers`). -/
+theorem kept_constraints (tn : String) (refl : Bool) (s : Schema) (ops : List BatchOp) (st : State) (c : Const) (n : String)
+    (hc : c ∈ tableConstraints s) (hn : c.name = some n)
+    (huniq : ∀ c' ∈ tableConstraints s, c'.name = some n → c' = c)
+    (hcols : ∀ k ∈ c.cols, k ∈ s.cols.map (·.name) ∧ ∀ o ∈ ops, touches k o = false)
+    (hops : ∀ o ∈ ops, mentionsConst n o = false)
+    (hok : (State.init tn refl s).applyOps ops = .ok st) : CarriedOver st c := by
+  have h0 : alookup n (State.init tn refl s).named = some c := by
+    simp only [State.init, grabConstraints]
+    exact grab_named_lookup refl n c hn _ _ huniq (.inl hc)
+  have h1 : alookup n st.named = some c :=
+    named_kept_applyOps ops _ _ h0 (fun o ho k hk => (hcols k hk).2 o ho) hops hok
+  obtain ⟨k', hm⟩ := mem_of_alookup h1
+  have hkept : st.constKept c = true := by
+    unfold State.constKept
+    rw [List.all_eq_true]
+    intro k hk
+    obtain ⟨tr, e, hl, _, _⟩ := survives_applyOps ops _ _ (init_verbatim tn refl s k (hcols k hk).1).survives (hcols k hk).2 hok
+    exact ahas_of_alookup hl
+  have hmem : c ∈ st.keptConsts := by
+    simp only [State.keptConsts, List.mem_filter, List.mem_append, List.mem_map]
+    exact ⟨.inl ⟨(k', c), hm, rfl⟩, hkept⟩
+  refine ⟨hmem, ?_, ?_, ?_⟩ <;>
+  · intro hk
+    simp only [State.newSchema, List.mem_map]
+    exact ⟨c, List.mem_filter.mpr ⟨hmem, by simp [hk]⟩, rfl⟩
+
+/-- the table's own `PrimaryKeyConstraint` object (every SQLAlchemy `Table` has one, possibly empty) -/
+def tablePk (s : Schema) : Const :=
+  match s.pk with
+  | some p => { p with isTablePk := true }
+  | none => { kind := .pk, name := none, cols := [], isTablePk := true }
+
+theorem tableConstraints_eq (s : Schema) : tableConstraints s = tablePk s :: (s.uniques ++ s.checks ++ s.fks) := by
+  unfold tableConstraints tablePk
+  cases s.pk <;> simp
+
+/-- **C10.schema (untouched primary key).**  For every well-formed table (the PRIMARY KEY entry has kind `pk`, the
+UNIQUE/CHECK/FK entries do not, no other constraint carries the primary key's name) and every accepted operation
+sequence that does not concern the primary key — no `add_constraint` of a PRIMARY KEY or under its name, no
+`drop_constraint` of its name, none of its columns dropped or re-added — the new table's primary key is the
+original one: same name, same columns in the same order, under their final names. -/
+theorem kept_primary_key (tn : String) (refl : Bool) (s : Schema) (ops : List BatchOp) (st : State)
+    (hkind : (tablePk s).kind = .pk)
+    (hwf : ∀ x ∈ s.uniques ++ s.checks ++ s.fks, x.kind ≠ .pk)
+    (hname : ∀ x ∈ s.uniques ++ s.checks ++ s.fks, (tablePk s).name.isSome → x.name ≠ (tablePk s).name)
+    (hne : (tablePk s).cols ≠ [])
+    (hcols : ∀ k ∈ (tablePk s).cols, k ∈ s.cols.map (·.name) ∧ ∀ o ∈ ops, touches k o = false)
+    (hops : ∀ o ∈ ops, mentionsPk (tablePk s).name o = false)
+    (hok : (State.init tn refl s).applyOps ops = .ok st) :
+    st.newPk = some { kind := .pk, name := (tablePk s).name, cols := (tablePk s).cols.map st.finalName } := by
+  have hpk : isPk (tablePk s) = true := by simp [isPk, hkind]
+  -- `_grab_table_elements`
+  have hinit : PkInv (State.init tn refl s) (tablePk s) := by
+    have hfirst : (refl && (tablePk s).kind == ConstKind.check && (tablePk s).name.isNone) = false := by simp [hkind]
+    have := grab_pkInv refl (tablePk s) (s.uniques ++ s.checks ++ s.fks)
+      (match (tablePk s).name with
+        | some nm => (aset nm (tablePk s) [], [])
+        | none => ([], [] ++ [tablePk s]))
+      (fun x hx => by simpa [isPk] using hwf x hx) hname
+      (by cases hn : (tablePk s).name <;> simp [aset, hpk])
+      (by cases hn : (tablePk s).name <;> simp [aset, hn])
+    have hfold : grabConstraints refl (tableConstraints s) =
+        (s.uniques ++ s.checks ++ s.fks).foldl (fun acc c =>
+          if refl && c.kind == .check && c.name.isNone then acc
+          else match c.name with
+            | some nm => (aset nm c acc.1, acc.2)
+            | none => (acc.1, acc.2 ++ [c]))
+          (match (tablePk s).name with
+            | some nm => (aset nm (tablePk s) [], [])
+            | none => ([], [] ++ [tablePk s])) := by
+      rw [tableConstraints_eq]
+      simp only [grabConstraints, List.foldl_cons, hfirst, Bool.false_eq_true, if_false]
+      rfl
+    constructor
+    · simp only [pkList, State.init]
+      rw [hfold]; exact this.1
+    · simp only [State.init]
+      rw [hfold]; exact this.2
+  have hinv : PkInv st (tablePk s) :=
+    pkInv_applyOps ops _ _ hinit (fun o ho k hk => (hcols k hk).2 o ho) hops hok
+  have hkept : st.constKept (tablePk s) = true := by
+    unfold State.constKept
+    rw [List.all_eq_true]
+    intro k hk
+    obtain ⟨tr, e, hl, _, _⟩ := survives_applyOps ops _ _ (init_verbatim tn refl s k (hcols k hk).1).survives (hcols k hk).2 hok
+    exact ahas_of_alookup hl
+  have hlist : st.keptConsts.filter (·.kind == .pk) = [tablePk s] := by
+    have h1 : st.keptConsts.filter (·.kind == .pk) = (pkList st).filter st.constKept := by
+      simp only [State.keptConsts, pkList, List.filter_filter]
+      apply List.filter_congr
+      intro x _
+      simp [isPk, Bool.and_comm]
+    rw [h1, hinv.only]
+    simp [hkept]
+  have hexp : ((tablePk s).cols.map st.finalName).isEmpty = false := by
+    cases h : (tablePk s).cols with
+    | nil => exact absurd h hne
+    | cons a r => simp
+  unfold State.newPk
+  rw [hlist]
+  simp only [List.foldl_cons, List.foldl_nil, hexp, Bool.false_eq_true, if_false, ite_self, Bool.false_and]
+
 /-! ## untouched indexes -/
 
 /-- **C10.schema (indexes).** An index of the original table that no `drop_index` names is still in
